@@ -3,3 +3,6 @@ import WowVerif.Props.C15
 #print axioms Wv.Wmo.stringAt_nameOffsets
 #print axioms Wv.Wmo.readList_encoded
 #print axioms Wv.Wmo.decodeVis_encode
+#print axioms Wv.Wmo.groupFlags_via_later
+#print axioms Wv.Wmo.groupFlags_idempotent
+#print axioms Wv.Wmo.groupFlags_adds_nothing
